@@ -1,3 +1,5 @@
+import Verif.Props.C01
+import Verif.Props.C05
 import Verif.Gen.Timing
 import Verif.Model.Shutdown
 
@@ -260,5 +262,54 @@ example : (leave ⟨true, none, false⟩ ⟨5, true⟩ .normal (childSpec .never
 example : pending [(1, "a"), (2, "b")] 2 = .returned "b" := by simp [pending]
 example : pending [(1, "a")] 2 = (.timedOut : ReqOutcome String) :=
   c16_silent_child_times_out _ _ (by simp)
+
+/-! ## No fabricated result, end to end (composition of C05's reader with C01's await)
+
+`c16_no_fabricated_result` above is stated over "the response lines the child wrote".  The
+delivery path from the child's bytes to the caller is the stdio reader (C05) followed by
+`send_message`'s receive loop (C01); composing their theorems closes the gap: whatever value a
+request returns was carried by a line the child actually wrote — for EVERY chunking of the
+child's output, every line parser, every arrival timing and every helper classifier. -/
+open Verif.Model in
+theorem c16_returned_value_was_written_by_child {μ α : Type}
+    (cfg : StdioIn.Cfg μ) (toIn : μ → Await.In α)
+    (items : List StdioIn.Item) (chunks : List (List Nat))
+    (hi : ∀ it ∈ items, Verif.Lemmas.StdioIn.ValidItem it)
+    (hc : chunks.flatten = StdioIn.encode (StdioIn.render items))
+    (hnb : ∀ it ∈ items, ∀ ms, cfg.parse (StdioIn.strip it.text) ≠ .batch ms)
+    (R : Int → Bool) (acfg : Await.Cfg α) (hist : List (Nat × Await.In α))
+    (hh : hist.map (·.2) = (StdioIn.delivered (StdioIn.runChunks cfg StdioIn.init chunks).2).map toIn)
+    (p : α) (hret : (Await.run R acfg hist).outcome = .returned p) :
+    ∃ it ∈ items, ∃ m, Verif.Props.C05.good cfg it = some m ∧ toIn m = Await.In.resp acfg.reqId p := by
+  obtain ⟨pre, a, post, he, _⟩ := Verif.Props.C01.c01_result_sound R acfg hist p hret
+  have hmem : Await.In.resp acfg.reqId p ∈ hist.map (·.2) := by
+    rw [he]; simp
+  rw [hh, Verif.Props.C05.c05_good_lines_filterMap cfg items chunks hi hc hnb] at hmem
+  obtain ⟨m, hm, hmt⟩ := List.mem_map.mp hmem
+  obtain ⟨it, hit, hg⟩ := List.mem_filterMap.mp hm
+  exact ⟨it, hit, m, hg, hmt⟩
+
+open Verif.Model in
+/-- … in particular a child that wrote no line parsing to a response with the request's id (it
+died, stays silent, or only floods other traffic) can only make the request time out or be
+cancelled — never return, never raise a server error. -/
+theorem c16_dead_child_never_answers {μ α : Type}
+    (cfg : StdioIn.Cfg μ) (toIn : μ → Await.In α)
+    (items : List StdioIn.Item) (chunks : List (List Nat))
+    (hi : ∀ it ∈ items, Verif.Lemmas.StdioIn.ValidItem it)
+    (hc : chunks.flatten = StdioIn.encode (StdioIn.render items))
+    (hnb : ∀ it ∈ items, ∀ ms, cfg.parse (StdioIn.strip it.text) ≠ .batch ms)
+    (R : Int → Bool) (acfg : Await.Cfg α) (hist : List (Nat × Await.In α))
+    (hh : hist.map (·.2) = (StdioIn.delivered (StdioIn.runChunks cfg StdioIn.init chunks).2).map toIn)
+    (hsilent : ∀ it ∈ items, ∀ m, Verif.Props.C05.good cfg it = some m → Await.isMatch acfg (toIn m) = false) :
+    (Await.run R acfg hist).outcome = .timedOut ∨ (Await.run R acfg hist).outcome = .cancelled := by
+  apply Verif.Props.C01.c01_never_foreign R acfg hist
+  intro x hx
+  have hmem : x.2 ∈ hist.map (·.2) := List.mem_map.mpr ⟨x, hx, rfl⟩
+  rw [hh, Verif.Props.C05.c05_good_lines_filterMap cfg items chunks hi hc hnb] at hmem
+  obtain ⟨m, hm, hmt⟩ := List.mem_map.mp hmem
+  obtain ⟨it, hit, hg⟩ := List.mem_filterMap.mp hm
+  rw [← hmt]
+  exact hsilent it hit m hg
 
 end Verif.Props.C16
